@@ -1,5 +1,6 @@
 import Driver.Util
 import SonicModel.Impl.Entry
+import SonicModel.Impl.DomParse
 namespace Driver
 open Sonic Sonic.Impl
 
@@ -28,7 +29,8 @@ def c02 (args : List String) : String :=
       let spre := match Spec.value false (Spec.fuelFor buf) buf (skipWs buf 0) with
         | .ok e => Spec.utf8FirstInvalid buf 0 ≥ e
         | _ => false
-      s!"m.lazy={verdictStr lz} spec.skip={ar (u && g)} spec.full={ar (u && s)} spec.prefix={ar pre} spec.sprefix={ar spre} utf8={ar u}"
+      let md := (Sonic.DomP.document buf).isSome
+      s!"m.lazy={verdictStr lz} spec.skip={ar (u && g)} spec.full={ar (u && s)} spec.prefix={ar pre} spec.sprefix={ar spre} utf8={ar u} m.dom={ar (u && md)}"
   | _ => "bad-args"
 
 end Driver
